@@ -1,3 +1,4 @@
+// requires-feature: approx
 // C19 — approximate interval equality is kind-aware and bound-wise; Display is canonical.
 // Engine K. The element type is an opaque token whose approximate-equality relations are *symbolic truth
 // tables*: the interval-level relation must be exactly "same kind and the element relation on every
